@@ -28,7 +28,8 @@ def parseMatrix (n : Nat) (ws : List String) : Option (Nat → Nat → Frac) :=
   match ws.mapM Frac.parse with
   | some vs =>
     let arr := vs.toArray
-    some (fun a b => arr[a * n + b]!)
+    -- total and honest outside the matrix: cells with an index ≥ n read 0 (they are never consulted: pool members < n)
+    some (fun a b => if a < n ∧ b < n then arr[a * n + b]! else Frac.zero)
   | none => none
 
 mutual
@@ -78,8 +79,7 @@ def handle (ws : List String) : String :=
       match kind with
       | "mpd" => optFrac (meanPairwise val nf keep es)
       | "mntd" =>
-        let cell := fun a b => match lookup tbl a b with | some e => val e | none => Frac.zero
-        optFrac (meanNearest cell nf keep (mapped taxonKey t))
+        optFrac (meanNearest (cellOf val tbl) nf keep (mapped taxonKey t))
       | "dists" => unwords ((pairValues val keep es).map fun d => (d / nf).render)
       | _ => "bad-op"
     | _, _ => "bad-op"
